@@ -8,10 +8,10 @@ Trace == ndJsonDeserialize(IOEnv.TRACE_FILE)
 R == 100
 VARIABLES i, rxq, n, plan, wrote, conf, confPrev, verdict
 tv == <<i, rxq, n, plan, wrote, conf, confPrev, verdict>>
-NoPlan == [kind |-> "noport", d1 |-> 0, d2 |-> 0, fault |-> "none", blank |-> FALSE]
+NoPlan == [kind |-> "noport", d1 |-> 0, d2 |-> 0, fault |-> "none", blank |-> FALSE, body |-> ""]
 Tok(t) == IF Len(t) = 1 THEN <<t[1]>> ELSE <<t[1], t[2]>>
 
-PlanOf(e) == [kind |-> e.kind, d1 |-> e.d1, d2 |-> e.d2, fault |-> e.fault, blank |-> e.blank]
+PlanOf(e) == [kind |-> e.kind, d1 |-> e.d1, d2 |-> e.d2, fault |-> e.fault, blank |-> e.blank, body |-> e.body]     \* body: the request text without its line ending
 KindConsistent(e) ==      \* the harness' command catalogue agrees with the documented table
   \/ e.kind \in {"noport", "notext"}
   \/ e.fn = "command" /\ e.kind = "cmd"
@@ -40,7 +40,8 @@ Step(e) ==
          /\ verdict' = IF KindConsistent(e) THEN "ok" ELSE "desync.kind"
     [] e.ev = "w" ->
          /\ rxq' = rxq \o Enq(plan.kind, n, plan.d1, plan.d2, plan.fault, plan.blank)
-         /\ wrote' = wrote + 1 /\ verdict' = "ok" /\ UNCHANGED <<n, plan, conf, confPrev>>
+         /\ wrote' = wrote + 1 /\ UNCHANGED <<n, plan, conf, confPrev>>
+         /\ verdict' = IF e.body = plan.body THEN "ok" ELSE "WritesTheRequest"        \* what goes out is the request that was given, not a truncation or a rewrite of it
     [] e.ev = "wx" ->
          /\ wrote' = wrote + 1 /\ verdict' = "ok" /\ UNCHANGED <<rxq, n, plan, conf, confPrev>>
     [] e.ev = "r" ->
